@@ -1947,8 +1947,8 @@ func (s *SelectStatement) GroupByOffset() (time.Duration, error) {
 		return 0, err
 	}
 
-	// Ignore if there are no dimensions.
-	if len(s.Dimensions) == 0 {
+	// Ignore if there are no dimensions or no interval to take the offset in.
+	if len(s.Dimensions) == 0 || interval == 0 {
 		return 0, nil
 	}
 
